@@ -5,7 +5,8 @@
         render with the data struct of the harness:  ok <hex> | err | unsupported
     router <fw> <ops> <report 0|1> <hex CacheSize> <cacheOn 0|1> <hex initial listen> <state tokens…>
         run the op string (N = New, C = Configure, S = Setup, R = Restore, D = router.New().String(),
-        x / y = Setup while the 1st / 2nd service command fails once, v / w = the same for Configure)
+        x / y = Setup while the 1st / 2nd service command fails once, v / w = the same for Configure,
+        e = the environment changes under the running daemon: synology's DHCP server is toggled in SRM)
         from the given initial state; after every op print the result and the whole state.
         state tokens:  F:<path>=<hex>   U:<key>=<hex>,<hex>…   N:<hexname>=<hex>
     gentmpl <fw>
@@ -135,6 +136,16 @@ def runOp (fw : Fw) (st : RunSt) (op : Char) : Option (String × RunSt) :=
       let r := configure (faultConsts c (if op = 'v' then 1 else 2)) names vars fw o st.cfg st.sys
       some (s!"{op}:{okS r.1} listens={hexList r.2.2.1.listens} cs={toHexOrDash r.2.2.1.cacheSize}",
             { sys := r.2.2.2, cfg := r.2.2.1, obj := some r.2.1 })
+  | 'e' =>
+    -- the environment changes under the running daemon: on synology the DHCP server is toggled in SRM
+    -- (/etc/dhcpd/dhcpd.info, the file Configure looked at); elsewhere nothing
+    if fw = .synology then
+      let p := b!"/etc/dhcpd/dhcpd.info"
+      let newc := if fileHasPrefix st.sys p b!"enable=\"yes\"" then b!"enable=\"no\"\n" else b!"enable=\"yes\"\nif=\"lbr0\"\n"
+      -- SRM applies its own change: the running dnsmasq sees the files as they are now
+      let sys1 := { st.sys with files := aset st.sys.files p newc }
+      some ("e:ok", { st with sys := { sys1 with view := st.sys.view.map fun _ => snapOf sys1 } })
+    else some ("e:-", st)
   | 'R' =>
     match st.obj with
     | none => some ("R:-", st)
